@@ -29,6 +29,9 @@ CHECKS = {
     "C18": dict(level=MC, design="5/C18", technique="TLC-generated KyberAlgebra programs executed on every implementation of each group family and on three build variants; encodings / transcripts compared step by step and against math/big reference curves",
                 text="One program file generated by TLC from the KyberAlgebra spec is the shared input of every implementation: members of a family run it with the same binding and atoms and must produce identical encodings after every step, equal to an independent arbitrary-precision model where one exists; the BLS12-381 back-ends must also agree on hash-to-curve, pairings and BLS signatures; the transcript binary built with tags default/generic/constantTime must print identical lines on common sections.",
                 note="trusted: TLC, math/big reference curves (Edwards25519, P-256, BN G1), crypto/ed25519; programs are sampled from the exhaustive set in the quick tier"),
+    "C10": dict(level=MC, design="5/C10 + notes/vss.md", technique="per-observer TLA+ aggregator spec (VSSAgg, requirement + implementation layers, both variants and roles) and VSSSystem model-checked with TLC; transition-tour and simulated behaviours replayed on real Dealer/Verifier objects; recorded and hook traces (incl. the repository's own tests) validated by VSSAggTrace",
+                text="TLC exhausts the aggregator model (deal kinds, responses incl. duplicate/forged/wrong-session/out-of-range, justifications incl. unsigned/other-index/alternative-commitments, timeout anywhere) for N<=5 (thorough <=7) and checks NoBadApproval, CertifiedSound, BadDealerSticky, Refines etc.; every (abstract state, action) pair becomes one replay against real pedersen/rabin objects with outcome sets, response table, DealCertified/EnoughApprovals and recovery from T-subsets compared after every step; traces recorded from randomized drivers and from go test -tags verif ./share/vss/... are validated by TLC.",
+                note="trusted: TLC, the harness-side envelope (ECDH+HKDF+AES-GCM) used for malformed plaintexts, Schnorr unforgeability; finite menus of deal/response/justification classes"),
 }
 
 NOT_YET = {
